@@ -1,6 +1,6 @@
 import FlytModel.Generated.IR
 import FlytModel.Expected.IR
-/-! The translation of `Result_Error` from the CURRENT source is, term for term, the IR the refinement theorems are about. -/
+/-! The translation of `Result_Error` from the CURRENT source is, term for term, the expected IR. -/
 namespace Flyt.Tie
 theorem Result_Error : Flyt.Generated.IR.Result_Error = Flyt.Expected.IR.Result_Error := rfl
 end Flyt.Tie
